@@ -37,11 +37,20 @@ CONSTANTS Peers,        \* peer host numbers, a set 1..N
           Shapes,       \* row shapes to enumerate, subset of AllShapes
           LocalLocs,    \* locations the control node can report
           CtlDups,      \* {FALSE} or BOOLEAN
-          Forces        \* values of force_token_rebuild to enumerate
+          Forces,       \* values of force_token_rebuild to enumerate
+          SameAddr      \* peers that sit behind the control node's ADDRESS and are told apart by their native port
+                        \* (system.peers_v2 native_port: port-mapped / single-machine clusters, SNI proxies)
 
 AllShapes   == {"absent", "valid", "noaddr", "nohid", "nodc", "norack", "notok", "dup", "inv_valid", "valid_inv"}
 ValidShapes == {"valid", "dup", "inv_valid", "valid_inv"}      \* shapes containing a valid row
 Hosts       == Peers \cup {0}
+ASSUME SameAddr \subseteq Peers
+
+\* A host IS its endpoint = (address, native port).  Address 0 is the control node's; port 0 is the default port.
+\* Hosts are identified by endpoint everywhere below (found set, known, removal pass): sharing an address with the
+\* control node - or with anybody - gives a host no special standing.
+Endpoint(h) == IF h \in SameAddr THEN [addr |-> 0, port |-> h] ELSE [addr |-> h, port |-> 0]
+ASSUME \A g, h \in Hosts : Endpoint(g) = Endpoint(h) => g = h
 
 \* the tokens of variant v on host h (variant 3 = the token moved); variant 0 = nothing known yet
 Tok(h, v) == CASE v = 1 -> {16 * h}
@@ -54,7 +63,7 @@ Infos    == [loc : Locs, tok : TokVs]
 DefInfo  == [loc |-> CHOOSE l \in Locs : TRUE, tok |-> CHOOSE v \in TokVs : TRUE]
 
 \* rows of one peer, in table order; i = what a (valid) row of that peer says
-Row(p, miss, i) == [ep |-> p, miss |-> miss, info |-> i]
+Row(p, miss, i) == [ep |-> p, endpoint |-> Endpoint(p), miss |-> miss, info |-> i]
 RowsOf(p, sh, i) == CASE sh = "absent"    -> <<>>
                       [] sh = "valid"     -> <<Row(p, "none", i)>>
                       [] sh = "noaddr"    -> <<Row(p, "address", i)>>
@@ -185,7 +194,8 @@ Mirror == Refreshed =>
 \* newly seen hosts are announced once, nothing else is announced
 AddedOnce == \A h \in Hosts : added[h] = IF h \in DOMAIN known \ DOMAIN prev THEN 1 ELSE 0
 
-\* vanished hosts are removed once, nothing else is removed; the control node is never removed
+\* vanished hosts are removed once - whatever address they have - nothing else is removed; the control node is never
+\* removed
 RemovedOnce == /\ \A h \in Hosts : removed[h] = IF h \in DOMAIN prev \ DOMAIN known THEN 1 ELSE 0
                /\ removed[0] = 0
 
@@ -210,6 +220,7 @@ Witness_InvalidIgnored  == ~(Refreshed /\ \E p \in Peers : act.snap.shape[p] \in
 Witness_Moved           == ~(Refreshed /\ \E m \in moves : m[1] # 0 /\ m[2] # "none")
 Witness_AddAndRemove    == ~(Refreshed /\ (\E h \in Hosts : added[h] = 1) /\ (\E h \in Hosts : removed[h] = 1))
 Witness_NoRebuild       == ~(Refreshed /\ ~rebuilt /\ prev[0].tok # 0)
+Witness_SharedAddressRemoved == ~(Refreshed /\ \E h \in SameAddr : removed[h] = 1)
 
 ASSUME TLCSet(2, {})
 WitnessesHere == (IF ~Witness_TokenOnlyChange THEN {"Witness_TokenOnlyChange"} ELSE {})
@@ -218,6 +229,7 @@ WitnessesHere == (IF ~Witness_TokenOnlyChange THEN {"Witness_TokenOnlyChange"} E
             \cup (IF ~Witness_Moved THEN {"Witness_Moved"} ELSE {})
             \cup (IF ~Witness_AddAndRemove THEN {"Witness_AddAndRemove"} ELSE {})
             \cup (IF ~Witness_NoRebuild THEN {"Witness_NoRebuild"} ELSE {})
+            \cup (IF ~Witness_SharedAddressRemoved THEN {"Witness_SharedAddressRemoved"} ELSE {})
 RecordWitnesses == TLCSet(2, TLCGet(2) \cup WitnessesHere)
 PrintWitnesses == PrintT(<<"WITNESSES", TLCGet(2)>>)
 =============================================================================
